@@ -13,12 +13,13 @@ pub open spec fn names_set(fs: Seq<Function>) -> Set<String> { names_of(fs).to_s
 /// with a receiver its body forwards to `<base>.<original name>` (the receiver the callee sees is that
 /// sub-object); without a receiver there is no sub-object to go through and the only body with the
 /// original's effect that is callable from a function without `self` is the original's own (finding F16);
-/// it keeps its name unless that name is already used, in which case it is called `<base>_<name>`
+/// it keeps its name unless that name is already used, in which case it is called `<base>_<name>` (the raw
+/// prefix `r#` of `<name>` is syntax, not part of the name: it cannot occur inside an identifier, finding F19)
 pub open spec fn injected_ok(f: Function, base: String, used: Set<String>, out: Function) -> bool {
     &&& out.visibility == f.visibility && out.doc == f.doc && out.arguments == f.arguments
     &&& out.return_type == f.return_type && out.calling_convention == f.calling_convention
     &&& out.body == (if has_self(f.arguments@) { FunctionBody::Field { field: base, function_name: f.name } } else { f.body })
-    &&& (if used.contains(f.name) { out.name@ == spec_fmt2("{}_{}"@, base@, f.name@) } else { out.name == f.name })
+    &&& (if used.contains(f.name) { out.name@ == spec_fmt2("{}_{}"@, base@, spec_strip_prefix(f.name@, "r#"@)) } else { out.name == f.name })
 }
 /// `out` re-exposes the sources one by one; the set of used names grows with every injected function
 pub open spec fn injected_seq(srcs: Seq<(Function, String)>, used0: Set<String>, out: Seq<Function>) -> bool {
